@@ -565,7 +565,7 @@ func init() {
 			v.Nontrivial = true
 			return v
 		},
-		Rule:        "host activity = task or sub-process x 1..2 boundary events x each interrupting or not x all histories of length <= 4 over {activate host, deliver event 1/2, answer host normally / with an error and no handler / with an error and a skip handler / with an error and a retry handler (host requested again, boundary events stay armed)} (incl. events before activation and repeated events); after every step exception-path and normal-path request counts are compared with the boundary-event reference; racing variants issue the event and the answer concurrently and accept exactly the outcomes of either order; finally every path is ended, late events delivered and completion demanded; all cases non-trivial; distinct = descriptor hash",
+		Rule:        "host activity = task or sub-process x 1..2 boundary events x each interrupting or not x all histories of length <= 4 over {activate host, deliver event 1/2, answer host normally / with an error and no handler / with an error and a skip handler / with an error and a retry handler (host requested again, boundary events stay armed)} (incl. events before activation and repeated events); after every step exception-path and normal-path request counts are compared with the boundary-event reference; racing variants issue the event and the answer concurrently and accept exactly the outcomes of either order; finally every path is ended, late events delivered and completion demanded; all cases non-trivial; distinct = descriptor hash; while the paths are finished no cease-flow trace may exist as long as a request on an exception or normal path is unanswered",
 		Exhaustive:  func(string) bool { return true },
 		Assumptions: []string{"events delivered through Process.ConsumeEvent", "one token at the host activity"},
 	})
